@@ -333,6 +333,10 @@ def check_decimal(inp):
     C = scorecheck.lib_class
     saved = decimal.getcontext()
     ctx = decimal.Context(prec=prec, rounding=rounding)
+    if inp.get("flags"):
+        # sticky signal flags left over from the application's own arithmetic (a caught InvalidOperation, an inexact division ...)
+        for sig in list(ctx.flags):
+            ctx.flags[sig] = True
     fails = []
     try:
         decimal.setcontext(ctx)
@@ -617,14 +621,15 @@ def decimal_part(idx, n_env, seed):
     for i in range(n_env):
         ver = spec.VKEYS[i % 3]
         vectors.append((ver, gen.rng_vector(rng, ver, p_opt=0.7)))
-    inp = {"prec": prec, "rounding": rounding, "vectors": vectors}
-    part.count(None, classes=("decimal", "prec=%d" % prec), n=len(vectors))
+    flags = idx % 2 == 1          # every second context carries set signal flags
+    inp = {"prec": prec, "rounding": rounding, "vectors": vectors, "flags": flags}
+    part.count(None, classes=("decimal", "prec=%d" % prec, "decimal:signal-flags-set" if flags else "decimal:signal-flags-clear"), n=len(vectors))
     part.nontrivial_count += len(vectors)
-    part.check("decimal", check_decimal, {"prec": prec, "rounding": rounding, "vectors": vectors})
+    part.check("decimal", check_decimal, inp)
     if part.violations:
         # shrink the replay.  This worker process may carry state from earlier cases, so every candidate is judged in a
         # FRESH process: first a vector that fails on its own, else a minimal failing sub-sequence (history dependent)
-        mk = lambda sub: {"prec": prec, "rounding": rounding, "vectors": sub}
+        mk = lambda sub: {"prec": prec, "rounding": rounding, "vectors": sub, "flags": flags}
         bad_here = [x for x in vectors if check_decimal(mk([x]))][:3]
         small = None
         for x in bad_here:
@@ -726,7 +731,7 @@ def run(tier, t0):
                           "schedules are explored at line granularity in frames of cvss/*.py; interleavings inside one line are left to the free-running stress",
                           "lazy imports of the standard library are triggered by a warm-up before the first snapshot"],
                          required=("long-history", "history", "op:ctor-valid", "op:ctor-invalid", "op:rh-mismatch", "op:text", "op:interactive", "op:cli",
-                                   "batch-compared", "ambient-in-fresh-process", "schedule", "switches>=10", "same-job-in-several-threads", "distinct-jobs", "free-running-stress", "hashseed", "decimal", "prec=28", "prec=200"),
+                                   "batch-compared", "ambient-in-fresh-process", "schedule", "switches>=10", "same-job-in-several-threads", "distinct-jobs", "free-running-stress", "hashseed", "decimal", "decimal:signal-flags-set", "prec=28", "prec=200"),
                          extra={"forced_thread_switches": part.extra.get("switches", 0), "traced_line_events": part.extra.get("line_events", 0)})
 
 
